@@ -11,6 +11,7 @@ mod classes;
 mod comp;
 mod corpus;
 mod exec;
+mod fmtchecks;
 mod execchecks;
 mod values;
 mod w2;
@@ -78,6 +79,21 @@ fn main() {
             let text = v["case"]["text"].as_str().or(v["case"]["crash_case"].as_str()).unwrap().to_string();
             let (sig, min) = frontend::minimize_c09(&text, args.get(3).is_some());
             println!("{sig}\n{min}");
+        }
+        "minimize-c11" => {
+            let v: Value = serde_json::from_str(&fs::read_to_string(&args[2]).unwrap()).unwrap();
+            let text = v["case"]["text"].as_str().unwrap().to_string();
+            let cfg: fmtchecks::FmtCfg = serde_json::from_value(v["case"]["cfg"].clone()).unwrap();
+            let (sig, min) = fmtchecks::minimize_c11(&text, &cfg);
+            println!("{sig}\t{}\t{min:?}", cfg.name());
+        }
+        "debug-format" => {
+            let text = fs::read_to_string(&args[2]).unwrap();
+            let cfg = if args.get(3).is_some() { fmtchecks::FmtCfg::default_cfg() } else { fmtchecks::FmtCfg { sort: false, merge: false, ..fmtchecks::FmtCfg::default_cfg() } };
+            let f1 = fmtchecks::format_text(&text, &cfg);
+            let f2 = fmtchecks::format_text(&f1, &cfg);
+            let f3 = fmtchecks::format_text(&f2, &cfg);
+            println!("--- pass 1\n{f1}--- pass 2\n{f2}--- pass 3 same as 2: {}\n--- check: {:?}", f3 == f2, fmtchecks::check_format(&text, &cfg));
         }
         "debug-gen-contract" => {
             for i in 0..args[2].parse::<u64>().unwrap() {
